@@ -17,26 +17,6 @@ CONSTANT Full      \* TRUE: the full class product (373 248 objects); FALSE: two
 VARIABLES o, k
 wvars == <<o, k>>
 H(n) == [Bytes(n, 2) EXCEPT !.h = "h" \o ToString(n)]           \* content identity = the length class
-\* ---------- the specification's encoder: a claims-set to its token ----------
-Uint(v) == [NoneItem EXCEPT !.t = "uint", !.v = v, !.w = IF v <= 65535 THEN "u16" ELSE "i32"]
-Nint(v) == [NoneItem EXCEPT !.t = "nint", !.v = v, !.w = "i32"]
-IntItem(v) == IF v >= 0 THEN Uint(v) ELSE Nint(v)
-ItemOf(v) ==
-  CASE v.k = "bytes" -> [NoneItem EXCEPT !.t = "bstr", !.n = v.n, !.b0 = v.b0, !.h = v.h]
-    [] v.k = "int"   -> IntItem(v.v)
-    [] v.k = "text"  -> [NoneItem EXCEPT !.t = "tstr", !.n = v.n, !.nr = v.n, !.s = v.s, !.h = v.h]
-    [] v.k = "str"   -> [NoneItem EXCEPT !.t = "tstr", !.n = v.n, !.nr = v.n, !.b0 = v.b0, !.h = v.h]
-    [] v.k = "prof"  -> [NoneItem EXCEPT !.t = "tstr", !.str = v.s[1]]
-    [] v.k = "nonces"-> IF v.n = 1 THEN [NoneItem EXCEPT !.t = "bstr", !.n = v.s[1].n, !.b0 = v.s[1].b0, !.h = v.s[1].h]
-                        ELSE [NoneItem EXCEPT !.t = "arr", !.n = v.n,
-                                              !.items = [i \in 1..v.n |-> [NoneItem EXCEPT !.t = "bstr", !.n = v.s[i].n, !.b0 = v.s[i].b0, !.h = v.s[i].h]]]
-Pair(kv, it) == [k |-> IntItem(kv), it |-> it]
-CompItem(c) == LET fs == SelectSeq(CompOrder, LAMBDA f : Present(c[f])) IN
-               [NoneItem EXCEPT !.t = "map", !.n = Len(fs), !.pairs = [i \in 1..Len(fs) |-> Pair(CompKeys[fs[i]], ItemOf(c[fs[i]]))]]
-SwItem(l) == [NoneItem EXCEPT !.t = "arr", !.n = Len(l), !.items = [i \in 1..Len(l) |-> CompItem(l[i])]]
-EncodeTok(ob) == LET cs == SelectSeq(EmitOrder(ob.p), LAMBDA c : c \in Emitted(ob)) IN
-                 [NoneItem EXCEPT !.t = "map", !.n = Len(cs),
-                                  !.pairs = [i \in 1..Len(cs) |-> Pair(KeyOf(ob.p, cs[i]), IF cs[i] = "sw" THEN SwItem(ob.sw.l) ELSE ItemOf(ob[cs[i]]))]]
 \* text values as the decoder rebuilds them (shape / class live in different item fields)
 \* ---------- the class product ----------
 TextV(s) == [Text(s) EXCEPT !.h = "t" \o ToString(Len(s))]
